@@ -27,17 +27,28 @@ package main
 //@   requires start: startLine >= 0
 //@   requires none: forall(k, 0, len(configLines), started[k] == 0)
 //@   ensures window: forall(k, 0, len(configLines), started[k] == ite(startLine <= k && (numberOfLines <= 0 || k < numberOfLines), 1, 0))
+// C11: every run that was started is waited for (its result is received) before the dispatcher prints the summary:
+// nstart counts go-statements, ncollect counts results taken from the result channel; activeRuns is their difference.
+//@   serves C11
+//@   ghost var nstart int = 0
+//@   ghost var ncollect int = 0
+//@   at call session.Run: ghost nstart = nstart + 1
+//@   after stmt "activeRuns--": ghost ncollect = ncollect + 1
+//@   ensures[C11] allcollected: ncollect == nstart
 //@ loop doConcurrentBatchRun#1
 //@   invariant range: 0 <= \i && \i <= len(configLines)
+//@   invariant[C11] active: activeRuns == nstart - ncollect && activeRuns >= 0
 //@   invariant slots: activeRuns <= concurrentOperations
 //@   invariant done: forall(k, 0, \i, started[k] == ite(startLine <= k && (numberOfLines <= 0 || k < numberOfLines), 1, 0))
 //@   invariant rest: forall(k, \i, len(configLines), started[k] == 0)
 //@   invariant notyet: numberOfLines > 0 ==> \i <= numberOfLines || \i <= startLine
 //@ loop doConcurrentBatchRun#2
 //@   invariant slots: activeRuns <= concurrentOperations
+//@   invariant[C11] active: activeRuns == nstart - ncollect && activeRuns >= 0
 //@   invariant frame: started == pre(started)
 //@ loop doConcurrentBatchRun#3
 //@   invariant frame: started == pre(started)
+//@   invariant[C11] active: activeRuns == nstart - ncollect && activeRuns >= 0
 //@ loop doConcurrentBatchRun#4
 //@   invariant frame: started == pre(started)
 
@@ -64,3 +75,11 @@ package main
 //@   assume forall(j, 0, n, rlo[j] <= rhi[j])
 //@   assume forall(j, 0, n, forall(m, j+1, n, rhi[j] < rlo[m]))
 //@   prove disjoint: forall(j, 0, n, forall(m, 0, n, rlo[j] <= line && line <= rhi[j] && rlo[m] <= line && line <= rhi[m] ==> j == m))
+
+// C11: the error summary gains exactly one line per failed result and none for a successful one
+// (the closure returned by checkResultForError; errSummary is its captured list).
+//@ func checkResultForError$1
+//@   serves C11
+//@   ensures oneline: len(errSummary) == old(len(errSummary)) + ite(result.Success, 0, 1)
+//@   ensures kept: forall(k, 0, old(len(errSummary)), errSummary[k] == old(errSummary[k]))
+//@   ensures returned: len(result0) == len(errSummary)
